@@ -83,9 +83,11 @@ class StubModel:
     def __init__(self):
         self.params = {}
 
-    def get_params(self, deep=True):
-        assert deep is True
-        return dict(self.params)
+    def get_params(self, deep=False):
+        # like a duck-typed meta estimator whose get_params is shallow unless asked: the card must ask for deep=True
+        if deep:
+            return dict(self.params)
+        return {k: v for k, v in self.params.items() if "__" not in k}
 
 
 def make_table(spec):
@@ -142,14 +144,16 @@ def apply_op(card, op):
             card.delete(op[1])
         elif kind == "dellist":
             card.delete(list(op[1]))
-        elif kind in ("vis", "fold"):
+        elif kind in ("vis", "fold", "title"):
             x = card.select(op[1][0])
             for k in op[1][1:]:
                 x = x.select(k)
             if kind == "vis":
                 x.visible = op[2]
-            else:
+            elif kind == "fold":
                 x.folded = op[2]
+            else:
+                x.title = op[2]
         else:
             raise RuntimeError("unknown op " + kind)
     except KeyError:
@@ -284,6 +288,63 @@ def trace_case(ops, mode, build):
             "oracle": [[list(h), [list(col) for col in c], out] for (h, c), out in oracle.items()]}
 
 
+def dfcheck(seed, n):
+    """C14 'identically for dict and DataFrame input', on the implementation: the same typed columns handed in as a
+    dict of numpy arrays, as a dict of lists of the arrays' elements, and as a DataFrame must render the same table,
+    and every cell must be the text of the value (str of the array element)."""
+    import random
+    import numpy as np
+    import pandas as pd
+    from skops.card import Card
+    rnd = random.Random(seed)
+    pools = {
+        "float64": lambda k: np.array([rnd.choice([0.1, 2.5, 1e-9, -3.0, 1e22, float("inf")]) for _ in range(k)], dtype=np.float64),
+        "float32": lambda k: np.array([rnd.choice([0.1, 2.5, 0.3, -7.7, 1e-9]) for _ in range(k)], dtype=np.float32),
+        "float16": lambda k: np.array([rnd.choice([0.1, 2.5, 0.3]) for _ in range(k)], dtype=np.float16),
+        "int64": lambda k: np.array([rnd.choice([0, 1, -7, 2 ** 40]) for _ in range(k)], dtype=np.int64),
+        "int8": lambda k: np.array([rnd.choice([0, 1, -7, 100]) for _ in range(k)], dtype=np.int8),
+        "uint16": lambda k: np.array([rnd.choice([0, 1, 65535]) for _ in range(k)], dtype=np.uint16),
+        "bool": lambda k: np.array([rnd.random() < 0.5 for _ in range(k)], dtype=bool),
+        "str": lambda k: np.array([rnd.choice(["a", "multi\nline", "é😀", "a|b", ""]) for _ in range(k)], dtype=object),
+        "object": lambda k: np.array([rnd.choice([None, 1, 2.5, "x", True]) for _ in range(k)], dtype=object),
+        "datetime64": lambda k: np.array([rnd.choice(["2020-01-01", "2021-02-03T04:05:06"]) for _ in range(k)], dtype="datetime64[ns]"),
+        "complex128": lambda k: np.array([rnd.choice([1 + 2j, 0.5j]) for _ in range(k)], dtype=np.complex128),
+    }
+    out = []
+    for i in range(n):
+        k = rnd.randint(1, 3)
+        names = rnd.sample(sorted(pools), rnd.randint(1, 3))
+        cols = {nm: pools[nm](k) for nm in names}
+        key = rnd.choice(["T", "A/B", "x y/T\\/U"])
+
+        def render(table):
+            c = Card(StubModel(), template=None)
+            c.add_table(**{key: table})
+            return c.render()
+        try:
+            a = render(cols)
+            b = render(pd.DataFrame(cols))
+            c = render({nm: list(v) for nm, v in cols.items()})
+        except Exception as e:  # noqa
+            out.append({"cols": names, "error": type(e).__name__ + ": " + str(e)[:100]})
+            continue
+        rec = {"cols": names, "rows": k, "same": a == b == c}
+        if not rec["same"]:
+            # which column is responsible: render each alone
+            bad = []
+            for nm in names:
+                one = {nm: cols[nm]}
+                if not (render(one) == render(pd.DataFrame(one)) == render({nm: list(cols[nm])})):
+                    bad.append(nm)
+            rec["bad_cols"] = bad
+            rec["dict"], rec["df"] = a[-300:], b[-300:]
+        # the cells of the dict rendering are the values' own texts
+        want = [str(v).replace("\n", "<br />") for nm in names for v in cols[nm]]
+        rec["cells_are_texts"] = all(w in a for w in want)
+        out.append(rec)
+    return out
+
+
 # --------------------------------------------------------------------------- main
 def main():
     req = json.load(sys.stdin)
@@ -294,6 +355,8 @@ def main():
     elif what == "oracle":
         import card_spec
         res = [card_spec.check_sequence(ops, new_card, apply_op, req.get("build")) for ops in req["cases"]]
+    elif what == "dfcheck":
+        res = dfcheck(req["seed"], req["n"])
     else:
         raise SystemExit("unknown request " + what)
     json.dump(res, sys.stdout)
